@@ -87,6 +87,10 @@ def values_for(rng, t, n_random):
         else:             # huge
             v = rng.getrandbits(rng.randint(250, 300)) * rng.choice([1, -1])
         vs.append(v)
+    # magnitudes written with the hex digit e (0x7e, 0x1e5, 0xe...e): must never be taken for an exponent form
+    for _ in range(3):
+        m = int("".join(rng.choice(["e", "e", "1", "7", "0"]) for _ in range(rng.randint(1, max(1, bits(t) // 4)))) or "e", 16) | 0xE
+        vs.append(m * rng.choice([1, -1]))
     return vs
 
 def gen_cases(rng, per_type):
@@ -97,6 +101,7 @@ def gen_cases(rng, per_type):
         vals = values_for(rng, t, per_type)
         for i, v in enumerate(vals):
             base = rng.choice(["dec", "dec", "hex", "hex", "oct", "bin"]) if i >= 6 else ["dec", "hex", "oct", "bin"][rng.randrange(4)]
+            if i >= len(vals) - 3: base = "hex"     # the e-digit magnitudes
             if i < 6 and rng.random() < 0.5:
                 # the six own-boundary values are rendered in every base over the run: add the other bases too
                 for b2 in BASES:
@@ -257,6 +262,68 @@ def probe_findings(run, work):
                       "fails in code generation", {"program": WASM_PREFIXED, "how": "ferret -target wasm -o p.wasm main.fer",
                                                    "expected_output": "16", "observed": (r["cout"] + r["cerr"])[-300:]})
 
+# ------------------------------------------------------------------ exponent forms (float literals without a fraction)
+# The lexer's FloatNumber alternative takes `1e5`, `1E5`, `1e+5`, `1e-5`, `1_0e2` as ONE number token. They are float
+# literals: accepted for float types with their value, never usable as integer literals; a prefixed integer containing the
+# hex digit e stays an integer (covered by the corpus and the generator). Model side: lex_number = LexFloat, literal_kind.
+def gen_exponent_forms(rng, n):
+    out = []
+    fixed = ["1e5", "1E5", "1e+5", "1e-5", "1_0e2", "-1e5", "-2E+3", "0e0", "1_2e0_2", "7e-0_1"]
+    for l in fixed: out.append(l)
+    for _ in range(n):
+        m = str(rng.randint(0, 9999))
+        if len(m) > 1 and rng.random() < 0.4:
+            k = rng.randrange(1, len(m)); m = m[:k] + "_" + m[k:]
+        e = str(rng.randint(0, 12))
+        if rng.random() < 0.3: e = "0" + e
+        out.append(rng.choice(["", "-"]) + m + rng.choice("eE") + rng.choice(["", "+", "-"]) + e)
+    return out
+
+def check_exponent_forms(run, work):
+    lits = gen_exponent_forms(run.rng, 30 if run.tier == "thorough" else 6)
+    # (a) float context: accepted and the printed value is the literal's value
+    body = "".join("  let f%d: f64 = %s;\n  io::Println(f%d);\n" % (i, l, i) for i, l in enumerate(lits))
+    prog = 'import "std/io";\nfn main() {\n' + body + "}\n"
+    r = common.compile_and_run(prog, work, "expf")
+    outs = r.get("out", "").split() if r.get("rc") == 0 else []
+    def fval(l): return float(l.replace("_", ""))
+    bad = None
+    if not r["accepted"] or len(outs) != len(lits):
+        # isolate the first failing literal
+        for l in lits:
+            p1 = 'import "std/io";\nfn main() {\n  let f: f64 = %s;\n  io::Println(f);\n}\n' % l
+            r1 = common.compile_and_run(p1, work, "expf1")
+            o1 = r1.get("out", "").strip() if r1.get("rc") == 0 else None
+            try: okv = o1 is not None and abs(float(o1) - fval(l)) <= 1e-9 * max(1.0, abs(fval(l)))
+            except ValueError: okv = False
+            if not okv:
+                bad = (l, p1, "rejected" if not r1["accepted"] else "printed %r" % o1); break
+    else:
+        for l, o in zip(lits, outs):
+            try: okv = abs(float(o) - fval(l)) <= 1e-9 * max(1.0, abs(fval(l)))
+            except ValueError: okv = False
+            if not okv:
+                bad = (l, 'import "std/io";\nfn main() {\n  let f: f64 = %s;\n  io::Println(f);\n}\n' % l, "printed %r" % o); break
+    for l in lits:
+        run.case(("f64", l, "let"), nontrivial=True); run.count("form:exponent")
+    if bad:
+        run.violation("exp:f64:" + bad[0], "exponent-form float literal %s : f64 (lexed as one number token) is %s; expected value %r"
+                      % (bad[0], bad[2], fval(bad[0])),
+                      {"kind": "value", "type": "f64", "literal": bad[0], "program": bad[1], "expected_output": repr(fval(bad[0])),
+                       "observed_output": bad[2], "how": "ferret -o prog main.fer && ./prog"})
+    # (b) integer context: an exponent form is not an integer literal — must be rejected for every integer type
+    jobs = [(t, l) for t in TYPES for l in lits[:6]]
+    rs = common.batch_typecheck_sources(["fn main() {\n  let x: %s = %s;\n}\n" % j for j in jobs], work, prefix="ei")
+    for (t, l), r1 in zip(jobs, rs):
+        run.case((t, l, "let"), nontrivial=True); run.count("form:exponent_in_int_context")
+        if r1["ok"] or r1["panic"]:
+            run.violation("exp:%s:%s" % (t, l), "exponent-form literal %s accepted as an initialiser of %s%s" %
+                          (l, t, " (compiler panic)" if r1["panic"] else ""),
+                          {"kind": "verdict", "type": t, "literal": l, "program": "fn main() {\n  let x: %s = %s;\n}\n" % (t, l),
+                           "expected_verdict": "rejected", "observed_verdict": "accepted", "how": "ferret -t main.fer"})
+            break
+    return lits
+
 # ------------------------------------------------------------------ main
 def main(run):
     import time as _t
@@ -279,6 +346,8 @@ def main(run):
                        "as the lexer's DecNumber pattern and the type checker's parseIntLiteral read it",
                        "the model describes the tree with fixes/C10-literal-base-sign.patch applied (NewNumericValue repaired)",
                        "the unary-minus form `- 5` is not ported: it is checked against the spec oracle only",
+                       "exponent forms (1e5, 1E+5, 1_0e2) are float literals (fixes/C10-exponent-float-kind.patch): checked against a python "
+                       "float oracle for f64 and required to be rejected for the 12 integer types; the port proves they are never integer tokens",
                        "printed values are observed through the native (QBE) back end"]
     ok = False
     for attempt in range(4):      # common.grep_gate walks coq/gen while other checks create and delete their cases files there
@@ -394,6 +463,7 @@ def main(run):
                       no_input=True)
     run.extra["model_disagreements"] = len(model_bad)
 
+    run.extra["exponent_forms"] = len(check_exponent_forms(run, work))
     probe_findings(run, work)
     T("probes")
 
